@@ -14,7 +14,8 @@ PID = 'C15'
 PROOF_MODULES = ['ChamProofs.Props.C15']
 THEOREMS = ['ChamVerif.Sys.Cache.C15_crash_safe', 'ChamVerif.Sys.Cache.C15_build_stores', 'ChamVerif.Sys.Cache.C15_shared_tmp_counterexample',
             'ChamVerif.Sys.Cache.C15_sound', 'ChamVerif.Sys.Cache.C15_keyed_covers_partial', 'ChamVerif.Sys.Cache.C15_keyed_covers_counterexample',
-            'ChamVerif.Sys.Cache.C15_probe_sane']
+            'ChamVerif.Sys.Cache.C15_probe_sane',
+            'ChamVerif.Sys.Cache.C15_key_separates_values']
 LEVEL_TEXT = ('Proved in Lean over the file-system step model of ModuleLoader.build/get: two writers of one entry with unique temporary names, run '
               'under any schedule and crashing at any points (arbitrary event list, no length bound), leave an entry that is absent, unchanged, '
               'or the complete module of one writer — never empty, header-only or torn (C15_crash_safe, invariant over every step); an '
@@ -212,7 +213,7 @@ def correspondence(ctx):
 # ---- key soundness -----------------------------------------------------------------------------------------------
 OPTIONS = {
     'trim_attribute_space': [False, True], 'implicit_i18n_translate': [False, True], 'strict': [True, False],
-    'boolean_attributes': [None, ['title']], 'implicit_i18n_attributes': [None, ['title']], 'enable_data_attributes': [False, True],
+    'boolean_attributes': [None, ['title'], [], ['checked']], 'implicit_i18n_attributes': [None, ['title'], ['alt']], 'enable_data_attributes': [False, True],
     'enable_comment_interpolation': [True, False], 'restricted_namespace': [True, False], 'default_expression': ['python', 'string'],
     'encoding': [None, 'utf-8'],
 }
@@ -263,9 +264,10 @@ def run_jobs(jobs, cache_dir=None):
 
 def pairs(rng, root):
     ps = []
-    for name, (v0, v1) in OPTIONS.items():
-        for body in BODIES:
-            ps.append(({'body': body, 'kw': {name: v0}}, {'body': body, 'kw': {name: v1}}, 'option ' + name))
+    for name, values in OPTIONS.items():
+        for v0, v1 in itertools.combinations(values, 2):
+            for body in BODIES:
+                ps.append(({'body': body, 'kw': {name: v0}}, {'body': body, 'kw': {name: v1}}, 'option ' + name))
     # body / class / filename
     for b1, b2 in itertools.combinations(BODIES[:4], 2):
         ps.append(({'body': b1, 'kw': {}}, {'body': b2, 'kw': {}}, 'body'))
